@@ -1281,6 +1281,12 @@ func parseDescriptors(i *astikit.BytesIterator) (o []*Descriptor, err error) {
 	if length > 0 {
 		offsetEnd := i.Offset() + length
 		for i.Offset() < offsetEnd {
+			// A descriptor header can't straddle the end of the loop it's in
+			if i.Offset()+2 > offsetEnd {
+				err = fmt.Errorf("astits: descriptor header goes past the end of the descriptors loop")
+				return
+			}
+
 			// Get next 2 bytes
 			if bs, err = i.NextBytesNoCopy(2); err != nil {
 				err = fmt.Errorf("astits: fetching next bytes failed: %w", err)
